@@ -285,6 +285,15 @@ def units(tier):
             else:
                 ctx.prove("answer-or-no-answer", out[1] is not None and type_of(out[1]) is C.NumericResponse)
         unit("serial/%s/send-under-silence" % gw, r_ser)
+
+    # ------------------------------------------------------------ transparent retry after a loss (send with exceptions off)
+    # the retry loop of hid.send is the subject of C15's units; what C17 needs from them is that a command that is sent
+    # again after the gateway was lost goes out as a whole caller unit again (device-type prefix included)
+    import checks.c15 as C15
+    for u15 in C15.units(tier):
+        if u15.name.startswith("C15/hid.send/") and u15.name.endswith("exceptions=False"):
+            U.append(Unit("C17/retry-after-loss/" + u15.name[len("C15/"):], "C17", None, None, use=u15.use, width=72,
+                          kind="custom", runner=u15.runner, max_paths=200000))
     return U
 
 
